@@ -13,9 +13,15 @@ def outOf : Verdict → Out
   | .chal => .challenge
   | _ => .reject
 
-/-- M's history as a trace the specification monitor can read. -/
-def strace (cfg : Cfg) : Recip → List Ev → List (Req × Out)
+def rspOf (x : Rsp) : ReplaySpec.Rsp := ⟨x.authentic, x.piv⟩
+
+def msgOf : Msg → ReplaySpec.Msg
+  | .req e => .req (reqOf e)
+  | .rsp x => .rsp (rspOf x)
+
+/-- M's history (requests and responses on one recipient context) as a trace the specification monitor can read. -/
+def strace (cfg : Cfg) : Recip → List Msg → List (ReplaySpec.Msg × Out)
   | _, [] => []
-  | r, ev :: evs => (reqOf ev, outOf (recv cfg r ev).2) :: strace cfg (recv cfg r ev).1 evs
+  | r, m :: ms => (msgOf m, outOf (step cfg r m).2) :: strace cfg (step cfg r m).1 ms
 
 end Coap.Replay
